@@ -194,6 +194,9 @@ def run(tier):
                         texts=["a max(x) b", "max(s)", "count(*)", "x avg(v)", "ab", "sum(v)", "max(x)"]) for _ in range(40 if quick else 1000)]
     hav += [having_scen(rng, ["like_and_count", "count_and_like"], ["a%", "%b", "%", "%a%", "a%b", "%max(x)%", "x y z%"],
                         texts=["ab", "a", "b", "x y z", "a max(x) b", "aab"]) for _ in range(60 if quick else 1500)]
+    # a keyword standing as a word of its own INSIDE the pattern literal is a run of characters like any other
+    hav += [having_scen(rng, ["like", "like_and_notnull", "notnull_and_like", "like_and_count"], ["case-%", "%case-%", "% case %", "case %", "%when %", "% end", "%and %", "% or %"],
+                        texts=["case-1", "box-1", "suitcase-2", "a case b", "case x", "when x", "the end", "a and b", "a or b", "ab"]) for _ in range(80 if quick else 2000)]
     seqfam.run_scenarios(res, hav, "TracePostAgg", tag="having")
     scen += hav
     agc = [aggcase_scen(rng, ["a%", "A%", "%b", "%B", "a_", "ab", "Ab", "%a%", "%"], ["ab", "Ab", "AB", "b", "aB", "xb", "", "a"]) for _ in range(120 if quick else 4000)]
